@@ -318,10 +318,28 @@ def kernel_obligations(rep, timeout):
         for pb in pr:
             if pa.label() != pb.label():
                 continue
-            obs = [oblig.Ob("kernel:finite_vortex|antisymmetry[%d] path %s" % (k, pa.label()), lhs=pb.result[0][0, k], rhs=-pa.result[0][0, k],
+            obs = [oblig.Ob("kernel:finite_vortex|antisymmetry[%d] path %s" % (k, pa.label()), lhs=pb.result[0, k], rhs=-pa.result[0][0, k],
                             assume=pa.conds + pb.conds, meta={"case": "kernel:finite_vortex", "path": partials.path_label(pa)}) for k in range(3)]
             oblig.discharge(obs, timeout=timeout)
             allobs += obs
+    # mirror covariance K(M a, M b) = -M K(a, b): the stub canonicalises mirror images with it
+    Mv = np.array([1, -1, 1], dtype=object)
+    with symbolic_numpy():
+        pm = execute.explore(lambda: symify(em._compute_finite_vortex(r1 * Mv, r2 * Mv)))
+        psm = execute.explore(lambda: symify(em._compute_semi_infinite_vortex(u * Mv, r2 * Mv)))
+    mu = (-1, 1, -1)
+    for pa in pf:
+        for pb in pm:
+            if pa.label() != pb.label():
+                continue
+            obs = [oblig.Ob("kernel:finite_vortex|mirror covariance[%d] path %s" % (k, pa.label()), lhs=pb.result[0, k], rhs=pa.result[0][0, k] * mu[k],
+                            assume=pa.conds + pb.conds, meta={"case": "kernel:finite_vortex", "path": partials.path_label(pa)}) for k in range(3)]
+            oblig.discharge(obs, timeout=timeout)
+            allobs += obs
+    obs = [oblig.Ob("kernel:semi_infinite_vortex|mirror covariance[%d]" % k, lhs=psm[0].result[0, k], rhs=ps[0].result[0][0, k] * mu[k],
+                    meta={"case": "kernel:semi_infinite_vortex", "path": "-"}) for k in range(3)]
+    oblig.discharge(obs, timeout=timeout)
+    allobs += obs
     # numeric validation of the two value kernels' DAG against the real kernels
     rng = np.random.default_rng(5)
     a, b = rng.random((1, 3)) + 0.3, rng.random((1, 3)) - 1.2
